@@ -298,6 +298,12 @@ def check(model, rep, tier):
         if f is not None:
             forwarded_parameter_obligations(model, rep, f, "output_shape", callees, "1 reducers")
     rep.floor("FWDP", 8, "(output_shape handed from the averaging entry points to the stack builders)")
+    # the stack that is averaged is built from the loader's current molecules: no stale per-loader memo
+    from .generic import stale_memo_obligations
+    try:
+        rep.stats["memo_fields_in_loaders"] = stale_memo_obligations(model, rep, [model.cls("acryo/loader/_base.py::LoaderBase")], "1 reducers")
+    except KeyError as e:
+        rep.error(f"anchor vanished: {e}")
     # the half maps returned with the FSC are the members of each split (shared with C17)
     from .C17 import halfmap_selection_obligations
     try:
